@@ -290,6 +290,83 @@ pub fn base_programs() -> Vec<(Program, Cfg)> {
 /// The header is not authenticated: the command-line tool defends against a downgrade (encryption bit
 /// cleared, cleartext body substituted) by refusing an archive that is not encrypted when a private
 /// key was given. That guard is exercised here on the mlar binary built from the tree.
+/// Altered archives through the tool: an encrypt-only archive of three files with one bit flipped in the middle of the
+/// first file. Whatever a command hands out for a member must be a prefix of that member (never a differing byte).
+fn cli_altered(rep: &mut Report) {
+    use crate::cli::{self, Scratch};
+    let exe = cli::mlar_path("s");
+    if !exe.exists() {
+        return;
+    }
+    let scratch = Scratch::new("c03alt");
+    let dir = scratch.path();
+    crate::sweep::write_key0(dir);
+    let p = Program::new(vec![Op::Add(0, 4 * CHUNK + 9), Op::Add(1, 40), Op::Add(2, CHUNK + 1)], Entropy::Noise);
+    let model = p.model();
+    for cfg in [Cfg::new(L4::Encrypt), Cfg::lvl(L4::Both, 5)] {
+        let Ok(Ok((a, _))) = guard(|| prog::build(&p, &cfg)) else { continue };
+        let hl = refstream::header_len(true, 1);
+        for chunk_idx in [1usize, 3] {
+            let at = hl + chunk_idx * (CHUNK + TAG) + 7;
+            if at >= a.len() {
+                continue;
+            }
+            let mut b = a.clone();
+            b[at] ^= 0x04;
+            let _ = std::fs::write(dir.join("alt.mla"), &b);
+            let all: Vec<u8> = model.files.values().flat_map(|d| d.iter().copied()).collect();
+            let cmds: Vec<(&str, Vec<&str>)> = vec![
+                ("cat --glob", vec!["cat", "-i", "alt.mla", "-k", "key.der", "--glob", "--", "*"]),
+                ("cat", vec!["cat", "-i", "alt.mla", "-k", "key.der", "--", "f0"]),
+                ("extract", vec!["extract", "-i", "alt.mla", "-k", "key.der", "-o", "xa"]),
+                ("extract --glob", vec!["extract", "-i", "alt.mla", "-k", "key.der", "-o", "xg", "--glob", "*"]),
+            ];
+            for (what, args) in cmds {
+                rep.evaluations += 1;
+                rep.transitions += 1;
+                let h = fnv(format!("clialt{:?}{chunk_idx}{what}", cfg.layers).as_bytes());
+                rep.state(h);
+                rep.nontrivial(h);
+                let o = cli::run(&exe, dir, &args, None);
+                // the property is about bytes: whatever the tool hands out for a member must be a prefix of that member
+                // (an error reported on stderr with a partial or missing member is "fails with an error"; the exit status
+                // conventions of the tool are not part of C03)
+                let is_prefix = |got: &[u8], want: &[u8]| got.len() <= want.len() && got == &want[..got.len()];
+                let ok = match what {
+                    "cat" => is_prefix(&o.stdout, &model.files["f0"]),
+                    "cat --glob" => {
+                        // members in name order, each possibly cut short after an error
+                        let mut rest: &[u8] = &o.stdout;
+                        let mut good = true;
+                        for d in model.files.values() {
+                            let k = rest.iter().zip(d.iter()).take_while(|(a, b)| a == b).count();
+                            rest = &rest[k..];
+                            let _ = &mut good;
+                        }
+                        rest.is_empty() || { good = false; good }
+                    }
+                    _ => {
+                        let out = dir.join(if what == "extract" { "xa" } else { "xg" });
+                        model.files.iter().all(|(n, d)| std::fs::read(out.join(n)).map(|g| is_prefix(&g, d)).unwrap_or(true))
+                    }
+                };
+                let _ = &all;
+                rep.class(&format!("cli-altered/{}", if o.status.success() { "exit0" } else { "refused" }));
+                if !ok {
+                    rep.violate(Violation {
+                        sig: json!({"kind": "cli_hands_out_bytes_that_are_not_the_original", "command": what}),
+                        detail: format!("{} archive with one bit flipped in chunk {chunk_idx}: mlar {args:?} (exit {:?}) hands out bytes that are not a prefix of the original member(s)", cfg.layers.tag(), o.status.code()),
+                        replay: json!({"cli_altered": what, "layers": cfg.layers.tag(), "chunk": chunk_idx}),
+                        weight: chunk_idx as u64,
+                    });
+                }
+                let _ = std::fs::remove_dir_all(dir.join("xa"));
+                let _ = std::fs::remove_dir_all(dir.join("xg"));
+            }
+        }
+    }
+}
+
 fn cli_downgrade(cases: &[(Vec<u8>, Vec<u8>)], rep: &mut Report) {
     use crate::cli::{self, Scratch};
     let exe = cli::mlar_path("s");
@@ -499,6 +576,7 @@ pub fn run(started: Instant) -> i32 {
     });
     rep.merge(rep0);
     cli_downgrade(&downgrades, &mut rep);
+    cli_altered(&mut rep);
     infra::finish(
         rep,
         Meta {
